@@ -36,6 +36,7 @@ static mut G_PLAIN: [u64; 4] = [0; 4]; // plain value k of the harness scalar
 static mut G_MONTY: [u64; 4] = [0; 4]; // its (opaque) Montgomery representation
 static mut G_MOD: [u64; 4] = [0; 4]; // modulus of the instantiation
 static mut G_BL1: u32 = 0; // bl_nv returned by the level-1 stub
+static mut G_EF: [i64; 4] = [0; 4]; // (e0, e1, f0, f1) returned by the level-1 stub
 static mut G_BL2: u32 = 0; // bl_nv returned by the level-2 stub (0 = not called)
 static mut G_NMUL: u32 = 0; // number of Montgomery products so far
 static mut G_L192: u32 = 0; // lagrange192_spec stub called
@@ -107,6 +108,7 @@ pub fn st_basisconv_weak(_a: &[u64; 2], _b: &[u64; 2]) -> (i64, i64, i64, i64, u
         kani::assume(e0 > -lim && e0 < lim && e1 > -lim && e1 < lim);
         kani::assume(f0 > -lim && f0 < lim && f1 > -lim && f1 < lim);
     }
+    unsafe { G_EF = [e0, e1, f0, f1]; }
     (e0, e1, f0, f1, bl)
 }
 
@@ -163,9 +165,43 @@ static mut G_CERT: u128 = 0;
 
 // level 2, main path: bl_nv <= 208, i.e. N(v) < 2^208: both second
 // coordinates are below 2^104 in absolute value
-pub fn st_spec128_short(_a0: &[u64; 2], _a1: &[u64; 2], _b0: &[u64; 2], _b1: &[u64; 2])
+pub fn st_spec128_short(a0: &[u64; 2], a1: &[u64; 2], b0: &[u64; 2], b1: &[u64; 2])
     -> ([u64; 2], [u64; 2], u32)
 {
+    // the basis handed over by the glue (scaling by 85 bits + apply_matrix):
+    // [a0, a1] = e0*[k', 1] + e1*[n', 0], [b0, b1] = f0*[k', 1] + f1*[n', 0] modulo
+    // 2^128, with k' = k >> 85, n' = n >> 85.  Checked exactly for the second
+    // coordinates and for the low 64 bits of the first ones, and in full for
+    // the factor pairs below (a full-width check is a 64x128-bit multiplier
+    // equivalence, out of reach of the SAT back end).
+    unsafe {
+        let sh = |x: &[u64; 4]| -> u128 {
+            let lo = (x[1] as u128) | ((x[2] as u128) << 64);
+            ((lo >> 21) | ((x[3] as u128) << 107)) & 0xFFFF_FFFF_FFFF_FFFF_FFFF_FFFF_FFFF_FFFF
+        };
+        let kr = sh(&G_PLAIN);
+        let nr = sh(&G_MOD);
+        let j = |x: &[u64; 2]| (x[0] as u128) | ((x[1] as u128) << 64);
+        let (e0, e1, f0, f1) = (G_EF[0], G_EF[1], G_EF[2], G_EF[3]);
+        assert!(j(a1) == e0 as i128 as u128 && j(b1) == f0 as i128 as u128);
+        let lo = |e: i64, f: i64| (e as u64).wrapping_mul(kr as u64).wrapping_add((f as u64).wrapping_mul(nr as u64));
+        assert!(a0[0] == lo(e0, e1) && b0[0] == lo(f0, f1));
+        let special = |x: u128, e: i64, f: i64| -> bool {
+            let neg = |v: u128| v.wrapping_neg();
+            if e == 1 && f == 0 { x == kr }
+            else if e == -1 && f == 0 { x == neg(kr) }
+            else if e == 0 && f == 1 { x == nr }
+            else if e == 0 && f == -1 { x == neg(nr) }
+            else if e == 1 && f == -1 { x == kr.wrapping_sub(nr) }
+            else if e == 2 && f == -1 { x == kr.wrapping_add(kr).wrapping_sub(nr) }
+            else if e == -3 && f == 1 { x == nr.wrapping_sub(kr).wrapping_sub(kr).wrapping_sub(kr) }
+            else if e == (1i64 << 40) && f == 0 { x == kr << 40 }
+            else if e == 0 && f == -(1i64 << 33) { x == neg(nr << 33) }
+            else { true }
+        };
+        assert!(special(j(a0), e0, e1) && special(j(b0), f0, f1));
+        kani::cover!(e0 == -3 && e1 == 1 && f0 == (1i64 << 40) && f1 == 0);
+    }
     let bl: u32 = kani::any();
     kani::assume(bl >= 1 && bl <= 208);
     unsafe { G_BL2 = bl; }
